@@ -147,7 +147,7 @@ def concLine (st : ConcRun) (lineNo : Nat) (line : String) : Except String (Conc
               s!"PROPFAIL C14 final_state_readable line={lineNo} final={(get "final").take 120}"])
       else .error s!"line {lineNo}: cannot parse conc line"
   | "stuck" :: rest =>
-    -- the harness made no progress for a minute and a half: a call into the code under test has
+    -- the harness made no progress for three minutes: a call into the code under test has
     -- not returned and never will.  No statement admits a call that is never answered.
     let fs := fields rest
     let note := ((lookup fs "note").bind unhexStr).getD ""
